@@ -21,6 +21,7 @@
 (*   Start / Stop / AddTracker on the handle found by GetTorrent           *)
 (*     lookup  GetTorrent                     under mTorrents.RLock        *)
 (*     apply   WriteStarted / trackers r-m-w  one bbolt transaction        *)
+(*             (cfg.split: read in `apply`, write in `put` - two of them)  *)
 (*     live    AddTrackers (torrent loop)                                  *)
 (*   Close + NewSession (updateStats, loadExistingTorrents), CleanDatabase,*)
 (*   CompactDatabase: taken at quiescence, one action each.                *)
@@ -45,7 +46,7 @@
 (***************************************************************************)
 EXTENDS Integers, FiniteSets, Sequences, TLC
 
-VARIABLES cfg,       \* [range : set of ports, k : number of callers, atomic, ret, env, sparse : BOOLEAN]  constant after Init
+VARIABLES cfg,       \* [range : set of ports, k : number of callers, atomic, ret, env, sparse, split : BOOLEAN]  constant after Init
                      \*   ret = TRUE: a finished call waits in step "done" for its return event (trace validation);
                      \*   ret = FALSE: it becomes idle at once (exhaustive configs: returning touches nothing shared)
                      \*   env = TRUE (trace validation): ENVELOPE of both designs - reservations are tracked, an add may be
@@ -53,6 +54,9 @@ VARIABLES cfg,       \* [range : set of ports, k : number of callers, atomic, re
                      \*   sparse = TRUE (expected-fail variant): resumer.Write stores only the non-empty values of a record, so a
                      \*   record written over a LEFTOVER bucket (a record that failed to load keeps its bucket) inherits the
                      \*   bitfield / info dictionary of the previous owner of the id
+                     \*   split = TRUE (expected-fail variant): Torrent.AddTracker reads the stored tracker list in one transaction
+                     \*   and writes the extended list in ANOTHER one (no writer lock in between): two overlapping calls read the
+                     \*   same list and the later write drops the tracker of the earlier one (lost update)
           torrents,  \* s.torrents : id -> [h, port, p]          (h = handle identity)
           byih,      \* s.torrentsByInfoHash, as the set of [h, id] entries of all lists
           ports,     \* s.availablePorts
@@ -103,6 +107,21 @@ Begin(c, op, st, id, h, a) ==
 Return(c) ==
     /\ pc[c].step = "done"
     /\ pc' = [pc EXCEPT ![c] = Idle]
+    /\ UNCHANGED <<cfg, torrents, byih, ports, db, invalid, orphans, reserved, crashed>>
+
+-----------------------------------------------------------------------------
+(* the writer lock of the resume database (environment)                     *)
+
+\* bbolt admits ONE write transaction at a time; read transactions are never blocked.  Somebody else's long write
+\* transaction (another torrent's periodic resume write, a CompactDatabase, the harness's scheduler gate) is a caller frame
+\* "HoldDB": while it is held no database-WRITING step of any call happens, every call that needs one queues up behind it,
+\* and all of them run back to back after the release - the schedule in which a read-modify-write that is not ONE
+\* transaction loses updates.
+DbHeld == \E c \in Callers : pc[c].op = "HoldDB" /\ pc[c].step = "held"
+BeginHold(c) == ~DbHeld /\ Begin(c, "HoldDB", "held", "", 0, NoArgs)
+EndHold(c) ==
+    /\ At(c, "HoldDB", "held")
+    /\ Done(c, "ok")
     /\ UNCHANGED <<cfg, torrents, byih, ports, db, invalid, orphans, reserved, crashed>>
 
 -----------------------------------------------------------------------------
@@ -163,7 +182,7 @@ AddWriteViol(c, ok) ==
     ELSE ""
 \* resumer.Write creates or OVERWRITES the record of that id (ok = FALSE: the transaction failed)
 AddWrite(c, ok) ==
-    /\ At(c, "Add", "write")
+    /\ At(c, "Add", "write") /\ ~DbHeld
     /\ LET f == pc[c] IN
        IF ok
        THEN \* @obligation C14.record  the record of a torrent holds exactly what was written for it: a bucket that is already
@@ -199,7 +218,7 @@ AddInsert(c, stopped) ==
 SetStarted(d, id, v) == IF id \in DOMAIN d THEN [d EXCEPT ![id].started = v, ![id].bf = IF v THEN "own" ELSE @] ELSE d
 
 AddStarted(c) ==
-    /\ At(c, "Add", "started")
+    /\ At(c, "Add", "started") /\ ~DbHeld
     /\ db' = SetStarted(db, pc[c].id, TRUE)
     /\ Done(c, "ok")
     /\ UNCHANGED <<cfg, torrents, byih, ports, invalid, orphans, reserved, crashed>>
@@ -224,7 +243,7 @@ RemDetach(c) ==
 \* ok = FALSE: the DeleteBucket transaction failed; the remove goes on all the same (reservation dropped, torrent
 \* closed, port released) - @obligation C14.leak for remove
 RemDb(c, ok) ==
-    /\ At(c, "Remove", "dbdel")
+    /\ At(c, "Remove", "dbdel") /\ ~DbHeld
     /\ db' = IF ok THEN Del(db, pc[c].id) ELSE db
     /\ reserved' = reserved \ {pc[c].id}
     /\ Goto(c, "release")
@@ -252,7 +271,7 @@ LookupUpd(c, found) ==
     /\ UNCHANGED <<cfg, torrents, byih, ports, db, invalid, orphans, reserved, crashed>>
 
 FlagApply(c) ==
-    /\ pc[c].op \in {"Start", "Stop"} /\ pc[c].step = "apply"
+    /\ pc[c].op \in {"Start", "Stop"} /\ pc[c].step = "apply" /\ ~DbHeld
     /\ db' = SetStarted(db, pc[c].id, pc[c].op = "Start")
     /\ Done(c, "ok")
     /\ UNCHANGED <<cfg, torrents, byih, ports, invalid, orphans, reserved, crashed>>
@@ -268,9 +287,17 @@ TrackerViol(c, out) ==
     \*  NoCrash in the exhaustive configs, the call line in the trace specification)
     ELSE IF out = "ok" THEN "C14.addtracker.phantom-record"
     ELSE ""
+\* (the URI is parsed before the transaction: an invalid one is refused without touching the database)
 TrackerUpd(c, out) ==
     /\ At(c, "AddTracker", "apply")
-    /\ IF out = "ok"
+    /\ pc[c].a.valid /\ ~cfg.split => ~DbHeld
+    /\ IF out = "ok" /\ cfg.split
+       \* expected-fail variant: the list is READ here (a read transaction: not blocked by a writer) ...
+       THEN /\ pc' = [pc EXCEPT ![c].step = "put",
+                                 ![c].a = [uri |-> pc[c].a.uri, valid |-> pc[c].a.valid,
+                                           seen |-> IF pc[c].id \in DOMAIN db THEN db[pc[c].id].p.tiers ELSE <<>>]]
+            /\ UNCHANGED <<db, crashed>>
+       ELSE IF out = "ok"
        THEN /\ db' = IF pc[c].id \in DOMAIN db
                      THEN [db EXCEPT ![pc[c].id].p.tiers = Append(@, <<pc[c].a.uri>>)] ELSE db
             /\ Goto(c, "live")
@@ -279,6 +306,14 @@ TrackerUpd(c, out) ==
             /\ crashed' = IF out = "panic" THEN "addtracker" ELSE crashed
             /\ UNCHANGED db
     /\ UNCHANGED <<cfg, torrents, byih, ports, invalid, orphans, reserved>>
+
+\* ... and the list that was read, extended by the new tier, is WRITTEN here, whatever the record holds by now
+TrackerPut(c) ==
+    /\ At(c, "AddTracker", "put") /\ ~DbHeld
+    /\ db' = IF pc[c].id \in DOMAIN db
+             THEN [db EXCEPT ![pc[c].id].p.tiers = Append(pc[c].a.seen, <<pc[c].a.uri>>)] ELSE db
+    /\ Goto(c, "live")
+    /\ UNCHANGED <<cfg, torrents, byih, ports, invalid, orphans, reserved, crashed>>
 
 TrackerLive(c) ==
     /\ At(c, "AddTracker", "live")
@@ -405,6 +440,12 @@ IndexConsistent ==
 
 NoCrash == crashed = ""
 
+\* C14: a torrent reappears with the same trackers - every tracker whose AddTracker call returned without error is in the
+\* record, however the calls of concurrent callers were scheduled around the database's writer lock
+\* @obligation C14.record.tracker-lost
+NoLostTracker ==
+    Quiescent => \A i \in (DOMAIN torrents) \cap (DOMAIN db) : Len(db[i].p.tiers) = Len(torrents[i].p.tiers)
+
 \* C14: every value stored in resume data reads back equal to what was written - a loadable record holds nothing of a
 \* previous owner of its bucket
 RecordIsOwn == \A i \in DOMAIN db : ~db[i].bad => db[i].bf # "left"
@@ -412,5 +453,5 @@ RecordIsOwn == \A i \in DOMAIN db : ~db[i].bad => db[i].bf # "left"
 ReservedOnlyInFlight == Quiescent => reserved = {}
 
 Inv == DistinctPorts /\ PortsPartition /\ NoOrphans /\ Conservation /\ RegistryIsDatabase /\ IndexConsistent
-       /\ NoCrash /\ ReservedOnlyInFlight /\ RecordIsOwn
+       /\ NoCrash /\ ReservedOnlyInFlight /\ RecordIsOwn /\ NoLostTracker
 =============================================================================
